@@ -281,6 +281,51 @@ func TestVX_C03(t *testing.T) {
 			run("result-point:"+names[i]+":r+1", b32(P.X), b32(P.Y), b32(e), b32(modN(new(big.Int).Add(rv, one))), b32(sv))
 		}
 	}
+	// (viii-b) the final reduction R = (e + x1) mod n at every multiple of n the sum can cross: e is *chosen* (not solved)
+	// from the boundary digests {0, n-1, n, n+1, 2^256-1, 2^256-2, kn-x1-1, kn-x1 for k = 1, 2} and r = (e + x1) mod n
+	// follows; P is solved as above. With x1 >= 2n-2^256+1 (top 31 bits set) and e near 2^256 the sum reaches 2n, which
+	// one conditional subtraction does not reduce (seeded C03-M). All are valid signatures.
+	{
+		pts, names := sm2ref.SpecialXPoints()
+		two256 := new(big.Int).Lsh(one, 256)
+		for i, R0 := range pts {
+			es := []*big.Int{new(big.Int), new(big.Int).Sub(bigN, one), new(big.Int).Set(bigN), new(big.Int).Add(bigN, one),
+				new(big.Int).Sub(two256, one), new(big.Int).Sub(two256, big.NewInt(2))}
+			for k := int64(1); k <= 2; k++ {
+				b := new(big.Int).Sub(new(big.Int).Mul(big.NewInt(k), bigN), R0.X)
+				es = append(es, new(big.Int).Sub(b, one), b)
+			}
+			for ei, e := range es {
+				if e.Sign() < 0 || e.BitLen() > 256 {
+					continue
+				}
+				rv := modN(new(big.Int).Add(e, R0.X))
+				sv := modN(bi(vx.Fill(fmt.Sprintf("c03sumS%d", i), 32)))
+				tv := modN(new(big.Int).Add(rv, sv))
+				if rv.Sign() == 0 || sv.Sign() == 0 || tv.Sign() == 0 {
+					// r = 0 (e = kn - x1): a side condition the standard rejects; still presented, the oracle decides
+					if tv.Sign() == 0 || sv.Sign() == 0 {
+						continue
+					}
+				}
+				Q := sm2ref.Add(R0, sm2ref.Neg(sm2ref.BaseMul(sv)))
+				if Q.Inf {
+					continue
+				}
+				P := sm2ref.Mul(invN(tv), Q)
+				if P.Inf || !sm2ref.MulAdd(sv, tv, P).Equal(R0) {
+					panic("harness: steering the result point failed")
+				}
+				cls := "in-[0,n)"
+				if sum := new(big.Int).Add(e, R0.X); sum.Cmp(new(big.Int).Lsh(bigN, 1)) >= 0 {
+					cls = "ge-2n"
+				} else if sum.Cmp(bigN) >= 0 {
+					cls = "in-[n,2n)"
+				}
+				run(fmt.Sprintf("sum-e+x1:%s:%s:e%d", cls, names[i], ei), b32(P.X), b32(P.Y), b32(e), b32(rv), b32(sv))
+			}
+		}
+	}
 	// (ix) off-curve keys that a defective curve check lets through: where the implementation's own decoder accepts a
 	// near-curve key, e is solved with the implementation's own arithmetic so that the equation holds; the standard
 	// rejects the key whatever the equation says
